@@ -415,6 +415,7 @@ where
 
     let start = Instant::now();
     let mut watcher = ProgressWatcher::new(progress_tracker, KEYSPACE_SYNC_TIMEOUT);
+    #[cfg_attr(datacake_verif, allow(unused_variables, unused_mut))]
     let mut interval = interval(Duration::from_millis(250));
     #[cfg(datacake_verif)]
     let mut interval = tokio::time::interval(crate::verif::sync_tick());
